@@ -16,6 +16,7 @@ Outside: entity decoding (entities.rs + a 2231-entry table), composition over wh
 through other writers than gen_lit_str.
 """
 import json
+import re
 import time
 import z3
 
@@ -472,6 +473,275 @@ def py_ref(src):
     return ''.join(out)
 
 
+# ------------------------------------------------------------------------------------------------ M12c: entities
+def entity_layout():
+    import glob
+    import os
+    from mirsym import sc_env
+    hits = glob.glob(os.path.expanduser('~/.cargo/registry/src/*/entities-*/src/lib.rs'))
+    if not hits:
+        raise MirUnsupported('source of the entities crate not found')
+    f = sc_env.struct_fields(sorted(hits)[-1], 'Entity')
+    return {n: i for i, (n, _) in enumerate(f)}
+
+
+def entity_contracts(state):
+    T = []
+
+    def reg(rx):
+        def deco(f):
+            T.append((rx, f))
+            return f
+        return deco
+
+    @reg(r'^core::slice::<impl \[(entities::)?Entity\]>::iter$')
+    def ent_iter(exe, path, callee, args, dst_ty):
+        return [('ret', path, Agg('EntIter', None, {0: 0}))]
+
+    @reg(r"^<std::slice::Iter<'_, (entities::)?Entity> as IntoIterator>::into_iter$")
+    def ent_into(exe, path, callee, args, dst_ty):
+        return [('ret', path, args[0])]
+
+    @reg(r"^<std::slice::Iter<'_, (entities::)?Entity> as Iterator>::next$")
+    def ent_next(exe, path, callee, args, dst_ty):
+        ref = args[0]
+        it = exe.load(path, ref)
+        if it.fields[0] >= 1:
+            return [('ret', path, contracts.NONE)]
+        exe.store_at(path, ref.key, ref.proj, it.with_field(0, 1))
+        return [('ret', path, contracts.some(Ref(('heap', 'entity'))))]
+
+    @reg(r'^HashMap::<.*>::new$|^HashMap::<.*>::with_capacity$')
+    def hm_new(exe, path, callee, args, dst_ty):
+        return [('ret', path, Agg('HashMap', None, {}))]
+
+    @reg(r'^HashMap::<.*>::insert$')
+    def hm_insert(exe, path, callee, args, dst_ty):
+        path.event('insert', exe.snapshot(path, exe.deref_all(path, args[1])), exe.snapshot(path, exe.deref_all(path, args[2])))
+        return [('ret', path, contracts.NONE)]
+
+    @reg(r'^<ENTITIES_MAPPING as Deref>::deref$')
+    def lazy_deref(exe, path, callee, args, dst_ty):
+        return [('ret', path, Ref(('heap', 'mapping')))]
+
+    @reg(r'^HashMap::<.*>::get::<str>$')
+    def hm_get(exe, path, callee, args, dst_ty):
+        path.event('get', exe.snapshot(path, contracts.strval(exe, path, args[1])))
+        no = path.clone()
+        no.event('miss')
+        return [('ret', path, contracts.some(Ref(('heap', 'table_value')))), ('ret', no, contracts.NONE)]
+
+    @reg(r'^<str as (std::ops::)?Index<(std::ops::)?(RangeFrom|RangeInclusive|Range)<usize>>>::index$')
+    def str_index(exe, path, callee, args, dst_ty):
+        s = contracts.strval(exe, path, args[0])
+        r = args[1]
+        if not isinstance(s, SeqV):
+            raise MirUnsupported('index of %r' % (s,))
+        exe.obligation(path, 'non-ascii', z3.Or([c >= 128 for c in s.items]) if s.items else z3.BoolVal(False))
+        vals = []
+        for k in sorted(r.fields):
+            v = r.fields[k]
+            v = z3.simplify(v) if isinstance(v, z3.ExprRef) else v
+            if isinstance(v, z3.ExprRef) and z3.is_int_value(v):
+                vals.append(v.as_long())
+            elif isinstance(v, bool) or (isinstance(v, z3.ExprRef) and z3.is_bool(v)):
+                continue
+            else:
+                raise MirUnsupported('symbolic slice bound %r' % (v,))
+        kind = re.search(r'(RangeFrom|RangeInclusive|Range)<usize>', callee).group(1)
+        n = len(s.items)
+        if kind == 'RangeFrom':
+            lo, hi = vals[0], n
+        elif kind == 'RangeInclusive':
+            lo, hi = vals[0], vals[1] + 1
+        else:
+            lo, hi = vals[0], vals[1]
+        if not (0 <= lo <= hi <= n):
+            exe.obligation(path, 'panic:slice index out of range', z3.BoolVal(True))
+            return [('diverge', path)]
+        return [('ret', path, SeqV(s.items[lo:hi]))]
+
+    @reg(r'^core::str::<impl str>::len$')
+    def ascii_len(exe, path, callee, args, dst_ty):
+        s = contracts.strval(exe, path, args[0])
+        if not isinstance(s, SeqV):
+            raise MirUnsupported('len of %r' % (s,))
+        exe.obligation(path, 'non-ascii', z3.Or([c >= 128 for c in s.items]) if s.items else z3.BoolVal(False))
+        return [('ret', path, z3.IntVal(len(s.items)))]
+
+    @reg(r'^core::num::<impl u32>::from_str_radix$')
+    def from_str_radix(exe, path, callee, args, dst_ty):
+        s = contracts.strval(exe, path, args[0])
+        radix = z3.simplify(args[1]).as_long()
+        if not isinstance(s, SeqV):
+            raise MirUnsupported('from_str_radix of %r' % (s,))
+        if not s.items:
+            return [('ret', path, contracts.err(Agg('ParseIntError')))]
+        d = Decoder(exe, [])
+        digs = [d.hexval(c) for c in s.items]
+        valid = z3.And([z3.And(h >= 0, h < radix) for h in digs])
+        val = digs[0]
+        for h in digs[1:]:
+            val = val * radix + h
+        okc = z3.And(valid, val <= 0xFFFFFFFF)
+        outs = []
+        yes = path.clone()
+        if exe.feasible(yes, [okc]):
+            yes.pc.append(okc)
+            outs.append(('ret', yes, contracts.ok(val)))
+        # (a leading '+' is accepted by std as well; the entity grammar never produces one: outside)
+        if exe.feasible(path, [z3.Not(okc)]):
+            path.pc.append(z3.Not(okc))
+            outs.append(('ret', path, contracts.err(Agg('ParseIntError'))))
+        return outs
+
+    @reg(r'^<String as From<char>>::from$')
+    def string_from_char(exe, path, callee, args, dst_ty):
+        return [('ret', path, SeqV((args[0],)))]
+    return T
+
+
+def m12c(res, mod, tier):
+    pending = []
+    nq = 0
+    idx = entity_layout()
+    # (a) the table: one arbitrary entry (entity name, 1..2 replacement code points) -> exactly one insert(name, characters)
+    for nchars in (1, 2):
+        exe = Executor(mod, entity_contracts({}) + contracts.TABLE, max_visits=6)
+        name = z3.String('entity_name')
+        chars = tuple(z3.Int('repl%d' % i) for i in range(nchars))
+        exe.base = [scalar(c) for c in chars]
+        p = Path()
+        p.store[('heap', 'entity')] = Agg('Entity', None, {idx['entity']: name, idx['codepoints']: Agg('Codepoints'), idx['characters']: SeqV(chars)})
+        fn = [x for x in mod.index if x.split('::')[-1] == 'make_mapping' and mod.headers[x].startswith('fn ')]
+        if len(fn) != 1:
+            raise MirUnsupported('make_mapping not found')
+        done = exe.run(fn[0], [], p)
+        res.solver_time += exe.stats['solver_time']
+        rets = [q for q in done if q.status == 'returned']
+        if not rets:
+            res.inconc('M12c: make_mapping has no returning path')
+        for q in rets:
+            ins = [e for e in q.events if e[0] == 'insert']
+            nq += 1
+            good = len(ins) == 1 and isinstance(ins[0][1], z3.ExprRef) and z3.eq(ins[0][1], name) and isinstance(ins[0][2], SeqV) and \
+                len(ins[0][2].items) == nchars and all(z3.eq(a, b) for a, b in zip(ins[0][2].items, chars))
+            res.query('unsat' if good else 'sat')
+            if not good:
+                pending.append(('table', 'the entity table does not map a name to its replacement text (%d code points): inserts %r' % (nchars, [e[1:] for e in ins]), None, 'named'))
+        res.functions.append({'fn': 'entities::make_mapping (one arbitrary table entry)', 'replacement_code_points': nchars, 'paths': len(done)})
+    # (b) decode on every ASCII string of the entity grammar's shape
+    fn = [x for x in mod.index if x.endswith('entities::decode') and mod.headers[x].startswith('fn ')]
+    if len(fn) != 1:
+        raise MirUnsupported('entities::decode not found')
+    d = None
+    for L in range(2, 11 if tier != 'thorough' else 13):
+        exe = Executor(mod, entity_contracts({}) + contracts.TABLE, max_visits=6)
+        cs = [z3.Int('e%d' % i) for i in range(L)]
+        exe.base = [z3.And(c >= 33, c < 127) for c in cs] + [cs[0] == 38]
+        d = Decoder(exe, [])
+        p = Path()
+        tv = z3.String('table_value')
+        p.store[('heap', 'table_value')] = tv
+        p.store[('heap', 'mapping')] = Agg('HashMap', None, {})
+        p.store[('heap', 'in')] = SeqV(tuple(cs))
+        done = exe.run(fn[0], [Ref(('heap', 'in'))], p)
+        res.solver_time += exe.stats['solver_time']
+        for f in exe.findings:
+            s = ''.join(chr(f.model.eval(c, model_completion=True).as_long()) for c in cs) if f.model is not None else None
+            pending.append(('exec:' + f.kind.split(',')[0], 'entities::decode: %s' % f.kind, s, 'numeric'))
+        # reference
+        is_hex = z3.And(cs[-1] == 59, z3.BoolVal(L > 4), cs[1] == 35, cs[2] == 120) if L > 4 else z3.BoolVal(False)
+        is_dec = z3.And(cs[-1] == 59, z3.BoolVal(L > 3), cs[1] == 35, z3.Not(is_hex)) if L > 3 else z3.BoolVal(False)
+
+        def value(digs, radix):
+            hv = [d.hexval(c) for c in digs]
+            v = hv[0]
+            for h in hv[1:]:
+                v = v * radix + h
+            return z3.And([z3.And(h >= 0, h < radix) for h in hv]), v
+        for q in done:
+            if q.status != 'returned':
+                continue
+            r = q.result
+            base = exe.base + q.pc
+            got_none = isinstance(r, Agg) and r.variant == 'None'
+            got_owned = got_borrowed = None
+            if isinstance(r, Agg) and r.variant == 'Some':
+                cow = r.fields[0]
+                if isinstance(cow, Agg) and cow.variant == 'Owned' and isinstance(cow.fields[0], SeqV):
+                    got_owned = cow.fields[0].items
+                elif isinstance(cow, Agg) and cow.variant == 'Borrowed':
+                    got_borrowed = cow.fields[0]
+            cases = []
+            if L > 4:
+                okd, v = value(cs[3:L - 1], 16)
+                valid = z3.And(okd, v <= 0x10FFFF, z3.Or(v < 0xD800, v > 0xDFFF))
+                cases.append((z3.And(is_hex, valid), ('char', v)))
+                cases.append((z3.And(is_hex, z3.Not(valid)), ('none', None)))
+            if L > 3:
+                okd, v = value(cs[2:L - 1], 10)
+                valid = z3.And(okd, v <= 0x10FFFF, z3.Or(v < 0xD800, v > 0xDFFF))
+                cases.append((z3.And(is_dec, valid), ('char', v)))
+                cases.append((z3.And(is_dec, z3.Not(valid)), ('none', None)))
+            cases.append((cs[-1] != 59, ('none', None)))
+            cases.append((z3.And(cs[-1] == 59, z3.Not(is_hex), z3.Not(is_dec)), ('table', None)))
+            for cond, (kind, v) in cases:
+                nq += 1
+                if kind == 'char':
+                    bad = z3.BoolVal(True) if got_owned is None or len(got_owned) != 1 or not (isinstance(got_owned[0], z3.ExprRef) and z3.is_int(got_owned[0])) else got_owned[0] != v
+                elif kind == 'none':
+                    bad = z3.BoolVal(not got_none)
+                else:
+                    missed = any(e[0] == 'miss' for e in q.events)
+                    looked = [e for e in q.events if e[0] == 'get']
+                    okk = len(looked) == 1 and isinstance(looked[0][1], SeqV) and len(looked[0][1].items) == L and all(z3.eq(a, b) for a, b in zip(looked[0][1].items, cs))
+                    bad = z3.BoolVal(not (okk and (got_none if missed else (got_borrowed is not None and z3.eq(got_borrowed, tv)))))
+                ok, model = exe.check(base + [cond, bad], want_model=True)
+                res.query('sat' if ok else 'unsat')
+                if ok:
+                    s = ''.join(chr(model.eval(c, model_completion=True).as_long()) for c in cs)
+                    pending.append(('decode-' + kind, 'entities::decode(%r) returns %r' % (s, r), s, 'numeric' if kind != 'table' else 'named'))
+        res.functions.append({'fn': 'entities::decode + {closure#0}', 'chars': L, 'paths': len(done)})
+    log('[C12] M12c: %d queries, %d candidate deviations' % (nq, len(pending)))
+    return nq, pending
+
+
+def replay_entities(kinds):
+    """static text made of entity references through the real pipeline; reference: numeric = the scalar value (kept verbatim and
+    diagnosed when invalid), named = the HTML5 table of Python's standard library"""
+    import html.entities
+    cases = []
+    if 'named' in kinds:
+        names = sorted(k for k in html.entities.html5 if k.endswith(';'))
+        multi = [k for k in names if len(html.entities.html5[k]) > 1]
+        pick = multi[:40] + names[::45]
+        cases += [('&' + k, html.entities.html5[k]) for k in pick]
+    if 'numeric' in kinds:
+        for v in (0x41, 0x0, 0x7f, 0xe9, 0x2028, 0xffff, 0x10000, 0x10ffff, 9, 10, 0x1F600):
+            cases += [('&#x%x;' % v, chr(v)), ('&#%d;' % v, chr(v)), ('&#X%x;' % v, None)]
+        cases += [('&#xd800;', None), ('&#x110000;', None), ('&#55296;', None), ('&#xffffffffff;', None), ('&#99999999999;', None)]
+    progs = ['<v>[%s]</v>' % src for src, _ in cases]
+    comp = driver.compile_batch(progs, want=('gen_object', 'runtime'))
+    bad = []
+    for (src, want), c in zip(cases, comp):
+        if 'panic' in c:
+            bad.append((src, 'panic: ' + c['panic']))
+            continue
+        expect = '[' + (want if want is not None else src) + ']'
+        if want is None and not c.get('diagnostics'):
+            bad.append((src, 'invalid reference accepted without a diagnostic'))
+            continue
+        out = driver.node_eval(c['gen_object'], c['runtime'], [{'mode': 'tree', 'ref': 'null', 'envs': [{}]}])
+        if 'load_error' in out:
+            bad.append((src, 'generated code does not load: ' + out['load_error']))
+            continue
+        tree = out['results'][0][0][0]
+        if '"text":' + json.dumps(expect, ensure_ascii=False) not in tree:
+            bad.append((src, 'denotes %s, the runtime receives %s' % (json.dumps(expect), tree[tree.find('"text"'):][:80])))
+    return bad
+
+
 def main(tier):
     res = Result('C12', 'other')
     res.engines = ['M (MIR symbolic execution + z3; reference decoders over symbolic characters)']
@@ -491,6 +761,19 @@ def main(tier):
             res.violation({'engine': 'replay', 'harness': 'M12a-fallback', 'class': 'e2e'},
                           'the string %r as %s reaches the runtime as %s (%d of %d probe strings differ)' % (s0, ctx, got[:120], len(bad), len(probe)), {'string': s0, 'context': ctx})
     nb, pend_b = m12b(res, mod, tier)
+    nc, pend_c = m12c(res, mod, tier)
+    seen = set()
+    for cls, what, s0, kind in pend_c:
+        if cls in seen:
+            continue
+        seen.add(cls)
+        bad = replay_entities([kind])
+        res.coverage['traces_validated_against_impl'] = res.coverage.get('traces_validated_against_impl', 0) + 1
+        if bad:
+            res.violation({'engine': 'M', 'harness': 'M12c', 'class': cls}, '%s; end to end: static text %s %s (%d references differ)' % (what, bad[0][0], bad[0][1], len(bad)),
+                          {'entity': bad[0][0]})
+        else:
+            res.inconc('M12c: %s - not observable end to end' % what)
     # replay
     seen = set()
     for cls, what, s in pend_a:
@@ -527,6 +810,9 @@ def main(tier):
     for s0, ctx, got in bad[:3]:
         if not len(res.violations):
             res.inconc('translator validation: %r as %s reaches the runtime as %s although the model proves the writer right' % (s0, ctx, got))
+    for s0, why in replay_entities(['named', 'numeric'])[:3]:
+        if not res.violations:
+            res.inconc('translator validation: static text %s %s although the model proves the decoder right' % (s0, why))
     lits = ['"a\\n\\x41\\u00e9\\q"', "'\\0\\b\\f\\v'", '"\\x4"', '"\\ud800"', '"\\u12"']
     for s0, why in replay_lit(lits):
         if not len(res.violations):
@@ -539,13 +825,15 @@ def main(tier):
     res.outside = ['entity decoding (entities.rs, 2231-entry table)', 'strings longer than the bound (the writer is a per-character map: no state across characters except \\0+digit, covered by L=2)',
                    'names emitted through other writers than gen_lit_str', 'composition over whole templates']
     res.coverage.update({'explanation': 'gen_lit_str and parse_lit_str executed from MIR over symbolic characters; reference decoders fork with the solver; every case decided by z3',
-                         'obligations': na + nb, 'discharged': res.queries.get('unsat', 0), 'evaluations': na + nb, 'distinct_nontrivial': na + nb})
+                         'obligations': na + nb + nc, 'discharged': res.queries.get('unsat', 0), 'evaluations': na + nb + nc, 'distinct_nontrivial': na + nb + nc})
     return res.finish()
 
 
 def replay(path):
     d = json.load(open(path))['replay']
-    if 'string' in d:
+    if 'entity' in d:
+        bad = replay_entities(['named', 'numeric'])
+    elif 'string' in d:
         bad = e2e([d['string']])
     else:
         bad = replay_lit([d['literal']])
